@@ -109,12 +109,12 @@ def init_states(chk, m):
         sel = []
         for p in ps:
             ok = True
-            for c, taken, inst in p.conds:
+            for cd in p.conds:
                 try:
-                    val = eval_concrete(c, {("arg", fmt_arg): v})
+                    holds = paths.cond_holds(cd, {("arg", fmt_arg): v})
                 except NoValue:
                     continue
-                if bool(val) != bool(taken):
+                if not holds:
                     ok = False
                     break
             if ok:
